@@ -24,7 +24,10 @@ fn t_op_clear() { body_clear(state_t(3)); }
 #[kani::proof]
 #[kani::unwind(6)]
 fn q_op_ends() {
-    let mut c = state_q3();
+    let n: u8 = kani::any();
+    kani::assume(n <= 3);
+    let mut c = prebuilt(n, 4);
+    if n >= 2 && kani::any() { c.touch(&0); }
     let o = order(&c);
     let size_before = c.current_size();
     match c.peek_lru() { Some((k, v)) => assert!(o.1 > 0 && *k == o.0[0] && v.0 == 8 + *k as usize), None => assert!(o.1 == 0) }
